@@ -2136,6 +2136,7 @@ func (t *tScreen) disengage() {
 	}
 	t.TPuts(ti.ResetFgBg)
 	t.TPuts(ti.AttrOff)
+	t.TPuts(t.exitUrl) // a hyperlink left open by the last draw
 	t.TPuts(ti.ExitKeypad)
 	t.TPuts(ti.EnableAutoMargin)
 	if os.Getenv("TCELL_ALTSCREEN") != "disable" {
